@@ -20,7 +20,7 @@ func c15E2E(c *Ctx) {
 
 func c15E2EOnce(c *Ctx, rep int) {
 	const rate, burst = 10, 40
-	b, err := NewBed(c, fmt.Sprintf("limiter%d", rep), BedOpts{Upstreams: []string{"pipe", "tcp"}, ClientAddrHeader: "X-Client-Addr", Listeners: append(append([]string{}, allListeners...), "udpmr"),
+	b, err := NewBed(c, fmt.Sprintf("limiter%d", rep), BedOpts{Upstreams: []string{"pipe", "tcp"}, MemSize: 4 << 20, ClientAddrHeader: "X-Client-Addr", Listeners: append(append([]string{}, allListeners...), "udpmr"),
 		Limiter: fmt.Sprintf("  client:\n    limit: %d\n    burst: %d\n", rate, burst)}) // masks omitted: /24 and /48
 	if err != nil {
 		c.startFailure(err, "c15-e2e")
@@ -158,6 +158,66 @@ func c15E2EOnce(c *Ctx, rep int) {
 			} else if fRef > 0 {
 				c.Ev.Distinct("e2e", "failing-upstream-flood")
 				c.Ev.Count("e2e_failing_upstream_flood_refused", int64(fRef))
+			}
+		}
+	}
+	// ---- connections that sat idle: 8 TCP connections of one /24 stay silent for 2 s, then each sends
+	// one query between bursts of a ninth connection. Admitted cost over the whole episode (3 per
+	// connection, 2 per query at least) stays within burst + rate x elapsed time.
+	{
+		t0 := time.Now()
+		var conns []*dnsclient.StreamClient
+		for k := 0; k < 9; k++ {
+			sc, err := dnsclient.DialStream(fmt.Sprintf("127.%d.50.%d", oct, k+1), b.L["tcp"], nil)
+			if err == nil {
+				conns = append(conns, sc)
+			}
+		}
+		if len(conns) == 9 {
+			sent := 0
+			busy := conns[8]
+			// every query asks one name that is in the cache already (warmed from another subnet): an
+			// admitted query costs 2 + 1 tokens
+			warm := fmt.Sprintf("ok-idlewarm-r%d.pipe.test.", rep)
+			b.Exchange("udp", mkQuery(7, warm, dns.TypeA, dns.ClassINET, false), xOpts{LocalIP: fmt.Sprintf("127.%d.60.1", oct), Timeout: 3 * time.Second})
+			send := func(sc *dnsclient.StreamClient) {
+				sent++
+				sc.SendFrame(mkQuery(uint16(sent), warm, dns.TypeA, dns.ClassINET, false))
+				time.Sleep(2 * time.Millisecond)
+			}
+			for i := 0; i < 3; i++ { // leaves tokens in the bucket
+				send(busy)
+			}
+			time.Sleep(2 * time.Second)
+			for k := 0; k < 8; k++ {
+				send(conns[k])
+				for j := 0; j < 10; j++ {
+					send(busy)
+				}
+			}
+			time.Sleep(600 * time.Millisecond)
+			el := time.Since(t0)
+			adm := 0
+			for _, sc := range conns {
+				for _, f := range sc.Frames() {
+					m := new(dns.Msg)
+					if m.Unpack(f.Data) == nil && m.Rcode == dns.RcodeSuccess {
+						adm++
+					}
+				}
+				sc.Close()
+			}
+			c.Ev.Eval(sent)
+			cost := float64(3*len(conns) + 2*adm)
+			if bound := float64(burst) + rate*el.Seconds() + 2; cost > bound {
+				c.Violation("e2e:conservation:idle-connections", fmt.Sprintf("one /24 with 9 TCP connections (8 of them silent for 2 s, then one query each between bursts of the ninth) got %d of %d queries admitted in %v: cost at least %.0f with limit %d burst %d (bound %.1f)", adm, sent, el, cost, rate, burst, bound), map[string]any{"admitted": adm, "sent": sent, "elapsed_ms": el.Milliseconds()})
+			} else {
+				c.Ev.Distinct("e2e", "idle-connections")
+				c.Ev.Count("e2e_idle_connections_admitted", int64(adm))
+			}
+		} else {
+			for _, sc := range conns {
+				sc.Close()
 			}
 		}
 	}
